@@ -67,3 +67,6 @@ Definition curfetch_tree (c : curfetch) : tree :=
 Definition curfetch_of_tree (t : tree) : curfetch :=
   {| cf_id := t_int (t_nth 0 t); cf_name := t_bytes (t_nth 1 t); cf_type := t_int (t_nth 2 t);
      cf_rownum := t_int (t_nth 3 t) |}.
+
+Lemma curfetch_of_tree_tree c : curfetch_of_tree (curfetch_tree c) = c.
+Proof. destruct c; reflexivity. Qed.
